@@ -440,12 +440,15 @@ def relevantOf (i : Inputs) : Rel := relevant i.1 i.2
 
 section Build
 variable {φ : Type} [DecidableEq φ] (cfg : Cfg) (hb : Bytes → φ) (fp : Manifest φ → φ)
-variable {Obj : Type} (compileRel : Rel → Obj)
+variable {Obj Stored : Type} (compileRel : Rel → Obj) (storeObj : Obj → Stored) (loadObj : Stored → Obj)
 
-/-- finite map fingerprint → archive; the newest entry for a fingerprint wins (`copyFileAtomic` overwrites) -/
-abbrev CacheMap (φ Obj : Type) := List (φ × Obj)
+/-- finite map fingerprint → what is kept on disk for it (`<fp>.a` + the `metadata:` section of `<fp>.manifest`); the
+    newest entry for a fingerprint wins (`copyFileAtomic` overwrites).  `storeObj` is what `saveToCache` writes for a
+    compiled package, `loadObj` what `tryLoadFromCache` makes of it on a hit (archive path + `LinkArgs`, `NeedRt`,
+    `NeedPyInit` from the manifest): see `Meta`, `storeMeta`, `loadMeta` below for the concrete pair. -/
+abbrev CacheMap (φ Stored : Type) := List (φ × Stored)
 
-def lookup (c : CacheMap φ Obj) (k : φ) : Option Obj :=
+def lookup (c : CacheMap φ Stored) (k : φ) : Option Stored :=
   match c.find? (fun e => e.1 == k) with
   | some e => some e.2
   | none => none
@@ -461,18 +464,18 @@ structure BuildOpts where
 def cachedKind (d : PkgData) : Bool := d.kind != .declOnly
 
 /-- one package: fingerprint, lookup, otherwise compile and store (never for `main`, never for decl-only packages) -/
-def buildPkg (o : BuildOpts) (g : Global) (c : CacheMap φ Obj) (t : PkgT) : CacheMap φ Obj × Obj :=
+def buildPkg (o : BuildOpts) (g : Global) (c : CacheMap φ Stored) (t : PkgT) : CacheMap φ Stored × Obj :=
   let k := fp (key cfg hb fp g t)
   match (if o.cacheOn && !o.force && cachedKind t.data then lookup c k else none) with
-  | some obj => (c, obj)
+  | some s => (c, loadObj s)
   | none =>
     let obj := compileRel (relevant g t)
-    (if o.cacheOn && t.data.name != "main" && cachedKind t.data then (k, obj) :: c else c, obj)
+    (if o.cacheOn && t.data.name != "main" && cachedKind t.data then (k, storeObj obj) :: c else c, obj)
 
-def buildProg (o : BuildOpts) (g : Global) : CacheMap φ Obj → List PkgT → CacheMap φ Obj × List Obj
+def buildProg (o : BuildOpts) (g : Global) : CacheMap φ Stored → List PkgT → CacheMap φ Stored × List Obj
   | c, [] => (c, [])
   | c, t :: ts =>
-    let r := buildPkg cfg hb fp compileRel o g c t
+    let r := buildPkg cfg hb fp compileRel storeObj loadObj o g c t
     let rs := buildProg o g r.1 ts
     (rs.1, r.2 :: rs.2)
 
@@ -493,37 +496,68 @@ inductive Step where
   | clean
   deriving Repr, Inhabited
 
-structure State (φ Obj : Type) where
+structure State (φ Stored Obj : Type) where
   prog : Program
-  cache : CacheMap φ Obj
+  cache : CacheMap φ Stored
   /-- what the last build produced -/
   served : Option (List Obj)
   /-- every build so far: (inputs at that time, output) -/
   trace : List (Program × List Obj)
 
-def step (s : State φ Obj) : Step → State φ Obj
+def step (s : State φ Stored Obj) : Step → State φ Stored Obj
   | .edit p => { s with prog := p }
   | .clean => { s with cache := [] }
   | .build o =>
-    let r := buildProg cfg hb fp compileRel o s.prog.glob s.cache s.prog.pkgs
+    let r := buildProg cfg hb fp compileRel storeObj loadObj o s.prog.glob s.cache s.prog.pkgs
     { s with cache := r.1, served := some r.2, trace := (s.prog, r.2) :: s.trace }
 
-def run (s : State φ Obj) : List Step → State φ Obj
+def run (s : State φ Stored Obj) : List Step → State φ Stored Obj
   | [] => s
-  | st :: rest => run (step cfg hb fp compileRel s st) rest
+  | st :: rest => run (step cfg hb fp compileRel storeObj loadObj s st) rest
 
-def State.init (p : Program) : State φ Obj := { prog := p, cache := [], served := none, trace := [] }
+def State.init (p : Program) : State φ Stored Obj := { prog := p, cache := [], served := none, trace := [] }
 
 /-- `key : Inputs → Manifest` -/
 def keyOf (i : Inputs) : Manifest φ := key cfg hb fp i.1 i.2
 /-- `compile : Inputs → Artifact`, by construction a function of `relevantOf` -/
 def compile (i : Inputs) : Obj := compileRel (relevantOf i)
 /-- the artifact the tool hands out after a history that starts with an empty cache -/
-def served (p₀ : Program) (h : List Step) : Option (List Obj) := (run cfg hb fp compileRel (State.init p₀) h).served
+def served (p₀ : Program) (h : List Step) : Option (List Obj) := (run cfg hb fp compileRel storeObj loadObj (State.init p₀) h).served
 /-- the inputs after a history -/
-def current (p₀ : Program) (h : List Step) : Program := (run cfg hb fp compileRel (State.init p₀) h).prog
+def current (p₀ : Program) (h : List Step) : Program := (run cfg hb fp compileRel storeObj loadObj (State.init p₀) h).prog
 
 end Build
+
+/-! ## what the cache keeps besides the archive (collect.go `saveToCache`, `tryLoadFromCache`, `parseManifestMetadata`) -/
+
+/-- fingerprint.go `manifestMetadata` = build.go `aPackage.{LinkArgs, NeedRt, NeedPyInit}`: the link arguments contributed
+    by the package (`#cgo LDFLAGS`, `LLGoPackage = "link: …"`; order and multiplicity matter: `-Xlinker A -Xlinker B`,
+    `-lfoo -lbar -lfoo`) and whether it needs the llgo runtime / Python initialised by the entry module -/
+structure Meta where
+  linkArgs : List String := []
+  needRt : Bool := false
+  needPyInit : Bool := false
+  deriving DecidableEq, Repr, Inhabited
+
+/-- `saveToCache`: a copy of the three fields; `data.Metadata = nil` when all three are zero (the YAML has no
+    `metadata:` section then) -/
+def storeMeta (m : Meta) : Option Meta :=
+  if m.linkArgs = [] ∧ m.needRt = false ∧ m.needPyInit = false then none
+  else some { linkArgs := m.linkArgs, needRt := m.needRt, needPyInit := m.needPyInit }
+
+/-- `parseManifestMetadata`: no `metadata:` section ⇒ the zero value -/
+def loadMeta : Option Meta → Meta
+  | none => {}
+  | some m => { linkArgs := m.linkArgs, needRt := m.needRt, needPyInit := m.needPyInit }
+
+/-- what a build has in hand for a package: the archive and the metadata -/
+structure Artifact (A : Type) where
+  archive : A
+  md : Meta
+
+/-- `saveToCache` / `tryLoadFromCache` on the pair (the archive is copied byte for byte: `copyFileAtomic`) -/
+def storeArtifact {A : Type} (a : Artifact A) : A × Option Meta := (a.archive, storeMeta a.md)
+def loadArtifact {A : Type} (s : A × Option Meta) : Artifact A := { archive := s.1, md := loadMeta s.2 }
 
 /-! ## emission loops -/
 
